@@ -64,20 +64,22 @@ def scenarios(ctx):
         add("kill-1p", P_1C, [{"k": 1, "f": 1}, {"k": 1, "r": 1}], kill=True, program_b=P_1C)
         add("acl", P_ACL, [{"f": 1}, {"r": 1}], faults=["acl-topic"], liveness=False, family="acl")
     else:
+        fr = [{"f": 1, "r": 1}, {"r": 2}]
         two = [{"f": 2}, {"f": 1, "r": 1}, {"r": 2}, {"p": 1, "f": 1}, {"p": 1, "r": 1}]
         two2 = [{"f": 2}, {"f": 1, "r": 1}, {"r": 2}, {"p": 1}]
-        add("1p-commit", P_1C, [{"f": 2, "r": 1}, {"f": 1, "r": 2}, {"p": 1, "f": 1}, {"p": 1, "r": 1}])
-        add("1p-abort", P_1A, [{"f": 2, "r": 1}, {"p": 1, "f": 1}, {"p": 1, "r": 1}])
-        add("2txn", P_2T, two)
-        add("abort-commit-offsets", P_AC, two2, app_bounds=[{"f": 1, "r": 1}, {"r": 2}])
-        add("concurrent-3p-offsets", P_CONC, two2)
-        add("3p-2txn", P_3P, [{"f": 1, "r": 1}, {"p": 1}])
-        add("offsets-only", P_OFFS, two2)
+        add("1p-commit", P_1C, two)
+        add("1p-abort", P_1A, two)
+        add("2txn", P_2T, two2, app_bounds=fr)
+        add("abort-commit-offsets", P_AC, fr, app_bounds=[{"r": 2}, {"f": 1}, {"p": 1}])
+        add("concurrent-3p-offsets", P_CONC, fr, app_bounds=[{"f": 1, "r": 1}])
+        add("3p-2txn", P_3P, ONE + [{"p": 1}])
+        add("offsets-only", P_OFFS, two2, app_bounds=fr)
         add("race-end", P_RACE, two)
         add("kill", P_KILL, [{"k": 1, "f": 1}, {"k": 1, "r": 1}], kill=True, program_b=P_KILL_B)
-        add("kill-1p", P_1C, [{"k": 1, "f": 1, "r": 1}, {"k": 1, "p": 1}], kill=True, program_b=P_1C)
+        add("kill-1p", P_1C, [{"k": 1, "f": 1, "r": 1}], app_bounds=[{"k": 1, "f": 1}, {"k": 1, "r": 1}, {"k": 1, "p": 1}],
+            kill=True, program_b=P_1C)
         add("acl", P_ACL, [{"f": 1, "r": 1}, {"f": 1, "p": 1}], faults=["acl-topic"], liveness=False, family="acl")
-        add("acl-retriable", P_ACL, [{"f": 2}], faults=RETRIABLE + ["acl-topic"], liveness=False, family="acl")
+        add("acl-retriable", P_ACL, [{"f": 2}], app_bounds=[{"f": 1}], faults=RETRIABLE + ["acl-topic"], liveness=False, family="acl")
     return out
 
 
